@@ -371,12 +371,40 @@ func (tt *TermTable) Bin(op Op, a, b *Term) *Term {
 		if b.IsConst() && b.k == 0 {
 			return a
 		}
+		// (x + c1) + c2 -> x + (c1+c2)
+		if b.IsConst() {
+			if base, off, ok := splitOffset(a); ok {
+				return tt.Bin(OpAdd, base, tt.BV(w, off+b.k))
+			}
+		}
+		if a.IsConst() {
+			if base, off, ok := splitOffset(b); ok {
+				return tt.Bin(OpAdd, base, tt.BV(w, off+a.k))
+			}
+		}
 	case OpSub:
 		if b.IsConst() && b.k == 0 {
 			return a
 		}
 		if a == b {
 			return tt.BV(w, 0)
+		}
+		if b.IsConst() {
+			return tt.Bin(OpAdd, a, tt.BV(w, -b.k))
+		}
+		// (x + c1) - (x + c2) -> c1 - c2
+		{
+			ba, oa, oka := splitOffset(a)
+			bb, ob, okb := splitOffset(b)
+			if !oka {
+				ba, oa = a, 0
+			}
+			if !okb {
+				bb, ob = b, 0
+			}
+			if ba == bb && (oka || okb) {
+				return tt.BV(w, oa-ob)
+			}
 		}
 	case OpBOr, OpBXor:
 		if a.IsConst() && a.k == 0 {
@@ -746,4 +774,17 @@ func b2u(b bool) uint64 {
 		return 1
 	}
 	return 0
+}
+
+// splitOffset decomposes t = base + const.
+func splitOffset(t *Term) (*Term, uint64, bool) {
+	if t.op == OpAdd {
+		if t.a.IsConst() {
+			return t.b, t.a.k, true
+		}
+		if t.b.IsConst() {
+			return t.a, t.b.k, true
+		}
+	}
+	return nil, 0, false
 }
